@@ -29,6 +29,14 @@ def _daily_frame(case):
     obs = obs * (1 + rng.normal(0, 0.06, n))
     if case.get("poor_fit"):
         obs = rng.lognormal(2.0, 1.5, n)                # usage unrelated to temperature with a heavy tail: CVRMSE well above 1
+    if case.get("pilot_gas"):
+        # a gas meter read at a resolution of one unit: weather-driven heating load in the cold months, a pilot-light load of 1 (2 on the odd day) in
+        # June-September -- groups of days that are flat apart from isolated readings
+        T = 55 - 25 * np.cos(2 * np.pi * (doy - 15) / 365) + rng.normal(0, 4, n)
+        obs = np.clip(1.2 * np.clip(55 - T, 0, None) + rng.normal(0, 1, n), 0, None)
+        pilot = np.where(rng.random(n) < 0.08, 2.0, 1.0)
+        summer = np.isin(idx.month, [6, 7, 8, 9])
+        obs[summer] = pilot[summer]
     df = pd.DataFrame({"temperature": T, "observed": obs}, index=idx)
     if case.get("gaps"):
         df.iloc[40:40 + case["gaps"], df.columns.get_loc("observed")] = np.nan
@@ -62,7 +70,7 @@ def _hourly_frame(case):
 def _objects(case):
     import opendsm.eemeter as em
     fam = case["family"]
-    elec = not case.get("negative")
+    elec = not (case.get("negative") or case.get("pilot_gas"))
     if fam == "hourly":
         df = _hourly_frame(case)
         base = em.HourlyBaselineData(df, is_electricity_data=elec)
@@ -175,6 +183,8 @@ def cases(tier, seed):
             if fam == "billing" and kd["name"] in ("gaps", "short_and_gaps", "negative_gas"):
                 continue        # a 60-day gap / one negative day in daily usage is not a defect of the monthly bills built from it
             out.append(dict(kd, family=fam, seed=int(100 * seed + k)))
+    for sd in (1, 3, 6, 7) if tier == "quick" else (1, 3, 5, 6, 7, 8, 11):
+        out.append({"name": "pilot_gas", "pilot_gas": True, "expect_data_dq": False, "family": "daily", "seed": sd})
     return out
 
 
